@@ -99,6 +99,7 @@ package ocimem
 
 //@ func (*Registry).makeRepo
 //@   holds r.mu
+//@   modifies ocimem.Registry.repos, map:*
 //@   ensures[invalid-name] !ociref.IsValidRepository(repoName) ==> result.1 == ociregistry.ErrNameInvalid && result.0 == nil
 //@   ensures[invalid-name-changes-nothing] !ociref.IsValidRepository(repoName) ==>
 //@     forall n string, d ociregistry.Digest :: in(r.repos, n) && in(r.repos[n].blobs, d) ==> old(in(r.repos, n) && in(r.repos[n].blobs, d))
@@ -214,6 +215,11 @@ package ocimem
 //@ func (*Registry).PushBlobChunkedResume
 //@   atomic
 //@   ensures[arms-the-offset-check] result.1 == nil ==> result.0 == b && b != nil && b.checkStartOffset == offset
+// (resuming an upload hands out the upload as it is: of an upload buffer only
+// the offset check is set here - its bytes, and whether and as what it was
+// committed, are not written; a committed blob shares the buffer's backing
+// array, so the buffer is never rewound)
+//@   modifies ocimem.Buffer.checkStartOffset, ocimem.Registry.repos, map:*
 
 // Deletions. In immutable-tags mode content is only deleted after refersTo
 // found it unreachable from every tag.
